@@ -110,7 +110,7 @@ pub fn check(c: &Case) -> CheckResult {
     Ok(pass)
 }
 
-fn strategy() -> impl Strategy<Value = Case> {
+pub fn strategy() -> impl Strategy<Value = Case> {
     prop_oneof![
         12 => g::message(g::MsgParams { large: false, ..Default::default() }),
         1 => g::message(g::MsgParams::default()),
